@@ -119,6 +119,7 @@ func genDgesvd(g *vlib.G) {
 					}
 					g.Case(fmt.Sprintf("Dgesvd m=%d n=%d fam=%s prof=%s ld=+%d+%d+%d lwork=%s", c.m, c.n, f.name, c.p.name, ld[0], ld[1], ld[2], lw), func(t *vlib.T) {
 						runDgesvd(t, c.m, c.n, c.p, f, ld, lw)
+						attributeBlocked(t, c.p, func(t *vlib.T, p prof) { runDgesvd(t, c.m, c.n, p, f, ld, lw) })
 					})
 				}
 			}
@@ -376,6 +377,7 @@ func genDgebrd(g *vlib.G) {
 					}
 					g.Case(fmt.Sprintf("Dgebrd m=%d n=%d fam=%s prof=%s lda=n+%d lwork=%s", c.m, c.n, f.name, c.p.name, ldx, lw), func(t *vlib.T) {
 						runDgebrd(t, c.m, c.n, c.p, f, ldx, lw)
+						attributeBlocked(t, c.p, func(t *vlib.T, p prof) { runDgebrd(t, c.m, c.n, p, f, ldx, lw) })
 					})
 				}
 			}
